@@ -255,26 +255,8 @@ def check_builder(ctx: Check, tree: Tree, te: TermEval) -> None:
                         (True, True): "relativistic_breit_wigner_with_ff(..., phsp_factor = the builder's)",
                     }[(edw_flag, ff_flag)],
                     None if ok else repr(got)[:250])
-    # __call__ multiplies form factor and expression; flags select the paths
-    call = cls.methods["__call__"]
-    crd = RD(call.node)
-    txt = unparse(call.node)
-    ok = False
-    for r in [n for n in walk_function(call.node) if isinstance(n, ast.Return) and isinstance(n.value, ast.Tuple)]:
-        first = r.value.elts[0]
-        if isinstance(first, ast.BinOp) and isinstance(first.op, ast.Mult):
-            srcs = set()
-            for side in (first.left, first.right):
-                for d in crd.closure(crd.uses(side)):
-                    if d.value is not None:
-                        t = unparse(d.value)
-                        for nm in ("__create_form_factor", "__energy_dependent_breit_wigner", "__simple_breit_wigner"):
-                            if nm in t:
-                                srcs.add(nm)
-            if {"__create_form_factor", "__energy_dependent_breit_wigner", "__simple_breit_wigner"} <= srcs:
-                ok = True
-    ok = ok and "if self.energy_dependent_width:" in txt and "if self.form_factor:" in txt
-    ctx.verdict(ok, "R-TERM", f"{cls.qual}.__call__::composition", tree.loc(call.node), "__call__: energy_dependent_width selects the BW, form_factor multiplies the form factor onto it")
+    # (the composition of __call__ is decided by the four flag combinations above - a textual rule on the
+    #  spelling of its two `if`s was removed: it fired on `if not flag: ... else: ...`, see DESIGN.md 9.6)
     # convenience builders
     mod = tree.module(BLD)
     expect = {
